@@ -32,7 +32,9 @@ ASSUMPTIONS = ["the prefix x topic bijection is an input-space statement; it is 
                "a subscribe call that raised is exempt from the coverage requirement (the attempt was made)"]
 REQUIRED_PROBES = ["foreign_rejected", "loopback_compared", "subscriptions_checked", "callback_raised_runs"]
 
-PREFIXES = ["", "a", "mygateway1-out", "mygateway1-in", "a/b", "a/b/c-d", "2", "12/34", "1/1/1/0/1", "1/255/3/0/11", "0", "x-1/2", "gw/0/0/0/0/0"]
+PREFIXES = ["", "a", "mygateway1-out", "mygateway1-in", "a/b", "a/b/c-d", "2", "12/34", "1/1/1/0/1", "1/255/3/0/11", "0", "x-1/2", "gw/0/0/0/0/0",
+            # a slash at the edge of the prefix (an empty topic level: unusual, legal, and part of the prefix as configured)
+            "/ms", "ms/", "/a/b/", "/"]
 MESSAGELIKE = {"2", "12/34", "1/1/1/0/1", "1/255/3/0/11", "0", "gw/0/0/0/0/0"}
 
 
